@@ -93,6 +93,8 @@ def lock_half(ctx):
             ctx.report({"kind": "crash", "where": "lock"}, "concurrent H5Ref callers crashed: " + err[-1200:], {"stderr": err[-4000:]})
             return
         s = last_json(out)
+        for m in s["mismatches"]:
+            ctx.report({"kind": m["kind"], "where": "lock"}, m["detail"], m)
         accepted, consumed, total, res = tracecheck.validate(ctx, "TraceH5Lock", tr)
         ctx.cov["evaluations"] += s["evaluations"]
         ctx.cov["traces_validated_against_impl"] += 1
@@ -114,6 +116,26 @@ def lock_half(ctx):
                 return "dropped the 'lock' event #%d" % k0
             tracecheck.corrupt_and_expect_reject(ctx, "TraceH5Lock", tr, mutate)
             ctx.notes["binding_selftest"] = "trace with a dropped lock event rejected"
+
+
+def lock_race(ctx):
+    """The same concurrent callers with the harness built with the Go race detector: data shared between concurrent
+    callers inside package io (scratch vectors, caches) shows here even when the interleaving at hand happens to give
+    the right values."""
+    tr = os.path.join(ctx.scratch, "lock-trace-race.ndjson")
+    rc, out, err = run_vh(ctx, ["h5lock", tr, workdir(ctx), "6", "40" if ctx.quick else "150"], race=True,
+                          env_extra={"VERIF_SEED": str(ctx.seed * 100 + 77), "GORACE": "halt_on_error=1"})
+    if "DATA RACE" in err:
+        ctx.report({"kind": "race", "where": "lock"}, "data race reported by the Go race detector among concurrent H5Ref callers: " + err[:1500], {"stderr": err[:6000]})
+        return
+    if rc != 0:
+        ctx.report({"kind": "crash", "where": "lock-race"}, "concurrent H5Ref callers (race build) crashed: " + err[-1200:], {"stderr": err[-4000:]})
+        return
+    s = last_json(out)
+    for m in s["mismatches"]:
+        ctx.report({"kind": m["kind"], "where": "lock-race"}, m["detail"], m)
+    ctx.cov["evaluations"] += s["evaluations"]
+    ctx.notes["lock_race_run"] = s["extra"]["ops"]
 
 
 def lock_proof(ctx):
@@ -139,7 +161,8 @@ def run(ctx):
     store_half(ctx)
     lock_proof(ctx)
     lock_half(ctx)
+    lock_race(ctx)
     ctx.assumptions += ["S1: the HDF5 library is harness/fakehdf5 (pure Go, documented H5S_SELECT_SET hyperslab semantics); fidelity to libhdf5 is assumed",
-                        "selections with at least one selected index per dimension (start < extent); stop may exceed the extent",
+                        "selections may select nothing (stop = start, start = extent); stop may exceed the extent",
                         "hdf5.DisplayErrors (configuration, called once before goroutines exist) is exempt from the lock discipline"]
     return ctx.finish("model_checking")
